@@ -38,14 +38,17 @@ ASSUMPTIONS = [
     "values are compared with == (no arithmetic happens), the Woehler results with rtol 1e-12 (vector vs scalar pow)",
 ]
 
-KEYS_Q = {"a": (10, 20), "b": ("x", "y"), "c": (1.5, 2.5), "n": (0, 1), "s": ("p", "q"), "z": (10, 20), "e": ("x", "y")}
-KEYS_T = {"a": (10, 20, 30), "b": ("x", "y"), "c": (1.5, 2.5), "n": (0, 1), "s": ("p", "q"), "z": (10, 20), "e": ("x", "y")}
+KEYS_Q = {"a": (10, 20), "b": ("x", "y"), "c": (1.5, 2.5), "n": (0, 1), "s": ("p", "q"), "z": (10, 20), "e": ("x", "y"), "m": ("x", None)}
+KEYS_T = {"a": (10, 20, 30), "b": ("x", "y"), "c": (1.5, 2.5), "n": (0, 1), "s": ("p", "q"), "z": (10, 20), "e": ("x", "y"), "m": ("x", None)}
+# "m": a level of a MultiIndex in which one key is missing (None / NaN: an element without a variant label); pandas keeps
+# such a key as code -1 outside .levels.  It is a key like any other: rows carrying it keep it and keep their values.
+NAN_KEY = "<missing key>"
 # "e": a level that HAS a name, but a falsy one ('' as from a csv header); it must be treated like any named level, not
 # like an unnamed one.  ("z": integer names are NOT enumerated: pandas itself reads an integer `level=` as a level number,
 # so name 1 raises IndexError and name 0 gives NaN in the cross join on the unchanged tree - a pandas ambiguity, observed,
 # outside the claims.)
-NAME = {"a": "a", "b": "b", "c": "c", "n": None, "s": None, "z": 0, "e": ""}
-LAYOUTS = (("a",), ("b",), ("c",), ("n",), ("s",), ("a", "b"), ("b", "a"), ("a", "c"), ("a", "n"), ("e",), ("e", "a"))
+NAME = {"a": "a", "b": "b", "c": "c", "n": None, "s": None, "z": 0, "e": "", "m": "m"}
+LAYOUTS = (("a",), ("b",), ("c",), ("n",), ("s",), ("a", "b"), ("b", "a"), ("a", "c"), ("a", "n"), ("e",), ("e", "a"), ("a", "m"))
 
 
 def bounds(tier):
@@ -117,8 +120,11 @@ def table(x):
     import pandas as pd
     names = list(x.index.names)
     rows = [tuple(k) if isinstance(k, tuple) else (k,) for k in x.index.tolist()]
+    rows = [tuple(NAN_KEY if (k is None or (isinstance(k, float) and math.isnan(k))) else k for k in r) for r in rows]
     if isinstance(x, pd.DataFrame):
-        cols = x.columns.tolist()
+        def canon(k):
+            return NAN_KEY if (k is None or (isinstance(k, float) and math.isnan(k))) else k
+        cols = [tuple(canon(k) for k in c) if isinstance(c, tuple) else canon(c) for c in x.columns.tolist()]
         values = np.asarray(x.to_numpy(), dtype=float).tolist()
     else:
         cols = ["<series>"]                    # the name of a Series is not part of the property
@@ -191,6 +197,10 @@ def check_pair(obj_spec, prm_spec):
     import pandas as pd
     from pylife.core.broadcaster import Broadcaster
     obj, prm = make(obj_spec), make(prm_spec)
+    if prm_spec.get("share_index"):
+        # both operands sit on the SAME pandas Index object (pd.Series(values, index=frame.index))
+        prm = (pd.Series(prm.to_numpy(), index=obj.index, name=prm.name) if isinstance(prm, pd.Series)
+               else pd.DataFrame(prm.to_numpy(), index=obj.index, columns=prm.columns))
     obj_t = table(obj)
     pandas_prm = _is_pandas_kind(prm_spec)
     prm_t = table(prm) if pandas_prm else None
@@ -556,6 +566,11 @@ def run_shard(shard):
                         case = {"part": "align", "obj": obj_spec, "prm": prm_spec}
                         viol, info = check_pair(obj_spec, prm_spec)
                         _account(acc, case, viol, info, differ)
+                        if not differ:
+                            shared = dict(prm_spec, share_index=True)
+                            case2 = {"part": "align", "obj": obj_spec, "prm": shared}
+                            viol2, info2 = check_pair(obj_spec, shared)
+                            _account(acc, case2, viol2, info2, True)
                         if differ and not viol and info["in_scope"] and len(acc.samples) < 1 and len(oidx["rows"]) + len(pidx["rows"]) >= 4 \
                                 and lo != lp and okind != pkind:
                             acc.sample({"case": case, "result(names, rows, object values, parameter values)": info["outcome"]})
